@@ -161,6 +161,30 @@ def minimise_c16(ctx, spec, res, viol, max_runs=300, max_s=90.0):
             if changed:
                 break
 
+    # --- phase A2: look for the same failure under a single preemption ----------
+    if len(cur['plan']['segments']) > 3 and budget.ok():
+        T = len(cur['threads'])
+        lens = [max(1, sum(ctx.oracle(c)['steps'] for c in tc)) for tc in cur['threads']]
+        found = None
+        grid = 24
+        for g in range(grid):
+            for a in range(T):
+                if not budget.ok() or found:
+                    break
+                k = int(lens[a] * (g + 0.5) / grid)
+                s2 = copy.deepcopy(cur)
+                s2['plan'] = {'plan': 'one', 'a': a, 'k': k, 'order': [x for x in range(T) if x != a]}
+                got = attempt(s2)
+                if got:
+                    s3 = with_segments(s2, got[0]['segments'])
+                    got3 = attempt(s3)
+                    if got3:
+                        found = (s3, got3)
+            if found or budget.runs > max_runs * 0.6:
+                break
+        if found:
+            cur, (cur_res, cur_v) = found
+
     # --- phase B: schedule --------------------------------------------------
     state = {'spec': cur, 'res': cur_res, 'v': cur_v}
 
